@@ -190,13 +190,14 @@ def leanchecker(pid, timeout=3000):
     return p.returncode == 0, _clean(p.stdout + p.stderr)[-2000:]
 
 
-def driver(lines, timeout=3000):
-    """Send s-expression lines to the Lean model driver; one output line per input line."""
+def driver(lines, main, timeout=3000):
+    """Send s-expression lines to the Lean model driver `lean/Driver/<main>.lean`;
+    one output line per input line."""
     if not lines:
         return []
     data = '\n'.join(lines) + '\n'
     p = subprocess.run(
-        ['lake', 'env', 'lean', '--run', 'Driver/Main.lean'],
+        ['lake', 'env', 'lean', '--run', f'Driver/{main}.lean'],
         cwd=LEAN,
         input=data,
         capture_output=True,
